@@ -152,6 +152,29 @@ def Verdict.ofBool (b : Bool) : Verdict := if b then .yes else .no
 /-- the params keeper as the checker sees it: `none` = subspace not found; `some none` = empty raw value -/
 abbrev Store := String → String → Option (Option Json)
 
+/-- `len(tdata) > 0 && tdata[0] == '['` on the CURRENT raw value -/
+def isArrayRaw : Option Json → Bool
+  | some (.arr _) => true
+  | _ => false
+
+/-- second half of `allowsParamChange`: decode the incoming value, then the current one (a current
+    value that does not decode is `panic(err)`), then compare -/
+def checkAgainst (a : APC) (curRaw : Option Json) (value : Option Json) : Verdict :=
+  if isArrayRaw curRaw then
+    match value.bind asMaps with
+    | none => .no
+    | some inc =>
+      match curRaw.bind asMaps with
+      | none => .panic
+      | some cur => .ofBool (allowsMulti a.multi cur inc)
+  else
+    match value.bind asMap with
+    | none => .no
+    | some inc =>
+      match curRaw.bind asMap with
+      | none => .panic
+      | some cur => .ofBool (validate cur inc a.single)
+
 /-- `allowsParamChange` (array / object dispatch on the first byte of the CURRENT raw value) -/
 def allowsParamChange (a : APC) (st : Store) (c : Change) : Verdict :=
   if a.subspace != c.subspace && a.key != c.key then .no
@@ -159,24 +182,7 @@ def allowsParamChange (a : APC) (st : Store) (c : Change) : Verdict :=
   else
     match st c.subspace c.key with
     | none => .no
-    | some curRaw =>
-      let isArray := match curRaw with
-        | some (.arr _) => true
-        | _ => false
-      if isArray then
-        match c.value.bind asMaps with
-        | none => .no
-        | some inc =>
-          match curRaw.bind asMaps with
-          | none => .panic
-          | some cur => .ofBool (allowsMulti a.multi cur inc)
-      else
-        match c.value.bind asMap with
-        | none => .no
-        | some inc =>
-          match curRaw.bind asMap with
-          | none => .panic
-          | some cur => .ofBool (validate cur inc a.single)
+    | some curRaw => checkAgainst a curRaw c.value
 
 /-- `filterByParamChange` -/
 def filterByParamChange (apcs : List APC) (c : Change) : List APC :=
